@@ -77,6 +77,17 @@ def check(run, text, viol, counts, classes, chains=None, titrate_only=None, remo
     if same:
         # AVR and the written summary report the same set (identical site sets in all models)
         exp = [s for s in first_sites if s["in_list"]]
+        if len(names) > 1:
+            # a cysteine that is bridged in some models and not in others (a long S-S bond jittered across
+            # 2.5 A): its average is neither 99.99 nor a titrating value - the 99.99 clause is per model
+            flags = {}
+            for n in names:
+                for s_ in per_conf.get(n, []):
+                    flags.setdefault((s_["rtype"], tuple(s_["resid"]), s_["akey"][0]), set()).add(bool(s_["bridged"]))
+            vary = {k for k, v in flags.items() if len(v) > 1}
+            if vary:
+                counts["cys_bridged_in_some_models_only"] = counts.get("cys_bridged_in_some_models_only", 0) + len(vary)
+                exp = [dict(s, bridged=False) if (s["rtype"], tuple(s["resid"]), s["akey"][0]) in vary else s for s in exp]
         _check_conf("AVR", rec["confs"]["AVR"], first_sites, titrate_only, viol, counts, classes, c, False,
                     match_atoms=(len(names) == 1), reported_only=True)
         if run.text:
